@@ -384,10 +384,15 @@ func (e *Engine) globalRef(vc *VC, g *ssa.Global) string {
 		vc.decls = append(vc.decls, fmt.Sprintf("(declare-const %s Int)", name))
 		vc.assertGlobal(fmt.Sprintf("(and (>= %s 1) (< %s alloc0) (= (typ %s) %d))", name, name, name, e.tid(g.Type().(*types.Pointer).Elem())))
 		// distinct from other globals
+		var others []string
 		for other := range vc.declared {
 			if strings.HasPrefix(other, "glob_") && other != name {
-				vc.assertGlobal(fmt.Sprintf("(not (= %s %s))", name, other))
+				others = append(others, other)
 			}
+		}
+		sort.Strings(others) // the text of a query must not depend on map iteration order
+		for _, other := range others {
+			vc.assertGlobal(fmt.Sprintf("(not (= %s %s))", name, other))
 		}
 		// package-level values declared constant: one fixed value, independent of memory
 		if g.Pkg != nil {
